@@ -636,7 +636,7 @@ class SelectorWorld:
                 m["retired_for_warm"] = False
                 self._c01_recheck(name, obj, m, "after a cold refit that was rejected for an invalid n_to_select", after_rejected_refit=True)
                 m["retired_for_warm"] = True
-            if op.get("rejected_refit") and not is_injected(rec.exc) and not warm and m["ok_fits"] > 0:
+            if op.get("rejected_refit") and not is_injected(rec.exc) and not warm and m["ok_fits"] > 0 and not was_retired:
                 # ... unless the library itself REJECTED the call (an invalid parameter value,
                 # no fault, no crash) and the object still reports the selections of its last
                 # successful fit: by every public sign it is a fitted selector, and continuing
